@@ -85,6 +85,17 @@ CORPUS += [
 ]
 
 
+CORPUS += [
+    # seeded C22-d: write()'s "finished" answer must mean every byte was written.  Tail first / back to front /
+    # middle out, direct (answer observed) and through the HTTP PATCH route (which closes on the answer):
+    # the share must not become visible before the head is written, and reads must return the written bytes
+    [["A", 0, [0], 10, 0, 10 ** 9], ["W", 0, 5, "0506070809"], ["R", 0, 0, 0, 10], ["W", 0, 0, "0001020304"], ["C", 0], ["R", 0, 0, 0, 10]],
+    [["A", 1, [0], 10, 0, 10 ** 9], ["H", 0, 5, "0506070809"], ["L", 1], ["R", 1, 0, 0, 10], ["H", 0, 0, "0001020304"], ["R", 1, 0, 0, 10], ["D"]],
+    [["A", 2, [3], 9, 1, 10 ** 9], ["H", 0, 6, "060708"], ["H", 0, 3, "030405"], ["L", 2], ["H", 0, 0, "000102"], ["R", 2, 3, 0, 9], ["D"]],
+    [["A", 0, [1], 8, 0, 10 ** 9], ["H", 0, 3, "0304"], ["H", 0, 5, "050607"], ["L", 0], ["H", 0, 0, "000102"], ["R", 0, 1, 0, 8]],
+]
+
+
 def digest(prefix_state, op):
     return hash((prefix_state, repr(op)))
 
@@ -97,7 +108,7 @@ def run(ctx):
     else:
         cases = [("corpus", h, True) for h in CORPUS]
         for i in range(n_hist):
-            cases.append(("gen", U.gen_history(ctx.rng, ctx.rng.choice([10, 25, 40, 60]), foolscap=0.5), False))
+            cases.append(("gen", U.gen_history(ctx.rng, ctx.rng.choice([10, 25, 40, 60]), foolscap=0.5, http_frac=0.5), False))
     lines, impl, recs = [], [], []
     for kind, ops, concrete in cases:
         conc, line, out, viol = U.run_history(ctx, "C22", ops, concrete=concrete, dirs=True)
